@@ -216,6 +216,7 @@ def run_blocked(desc, seed):
     rpats = list(itertools.product(range(3), repeat=r))
     viol = {}
     nt = 0
+    npat = 0
     ndecomp = 0
 
     def add(sig, msg):
@@ -249,6 +250,7 @@ def run_blocked(desc, seed):
                     if not close(rec, Hm, 1e-9, floor=1e-12):
                         add(f"C18:blocked:{hmode}:in-place-updated-total", f"ql={ql.tolist()} qr={qr.tolist()}: with the total label updated in place to {tot.tolist()} the factors restore something that differs from the allowed part by rel {rel_err(rec, Hm):.2e}")
             for tot in totals(alpha):
+                npat += 1
                 mask = np.all(ql[:, None, :] + qr[None, :, :] == tot[None, None, :], axis=-1)
                 any_allowed = bool(mask.any())
                 if any_allowed and (len(set(lp)) > 1 or len(set(rp)) > 1):
@@ -401,7 +403,7 @@ def run_blocked(desc, seed):
                                 add(f"C18:blocked:eigh-{system}:projection", f"{where}: U S^2 U^+ of an unrestricted density matrix differs from its symmetry-allowed part by rel {rel_err(rec2, np.where(blk, dmf, 0)):.2e}")
                         except Exception as e:
                             add(f"C18:blocked:eigh-{system}:exception:{type(e).__name__}", f"{where} (unrestricted density matrix): {e!r}")
-    return {"nt_count": nt, "counters": {"decompositions": ndecomp}, "outcome": f"blocked:{l}x{r}:{alpha}:{'viol' if viol else 'ok'}",
+    return {"nt_count": nt, "eval_count": npat, "counters": {"decompositions": ndecomp}, "outcome": f"blocked:{l}x{r}:{alpha}:{'viol' if viol else 'ok'}",
             "viol": list(viol.values()), "sample": {"desc": desc, "first_left_pattern": list(lpats[0])}}
 
 
